@@ -245,7 +245,7 @@ pub fn exec(song: &mut Song, tokens: &Vec<Token>) -> bool {
             TokenType::NRPNCommand => exec_cc_rpn_nrpn(song, t, 99, 98, 6),
             TokenType::PitchBend => {
                 let val = var_extract(&t.data[0], song).to_i();
-                let val = if t.value_i == 0 { val * 128 } else { val + 8192 };
+                let val = if t.value_i == 0 { val.saturating_mul(128) } else { val.saturating_add(8192) };
                 song.add_event(Event::pitch_bend(
                     trk!(song).timepos,
                     trk!(song).channel,
